@@ -196,3 +196,10 @@ def ids(msg):
         if a[0] == 'b' and a[1][0] != '#':
             out += ids(a[1])
     return out
+
+
+# add actions of the command reference (/s_new, /g_new): 0 head, 1 tail, 2 before, 3 after, 4 replace;
+# keys = the names accepted by the client library
+REF_ACTIONS = {'addToHead': 0, 'addToTail': 1, 'addBefore': 2, 'addAfter': 3, 'addReplace': 4,
+               'head': 0, 'tail': 1, 'before': 2, 'after': 3, 'replace': 4,
+               'h': 0, 't': 1, 'b': 2, 'a': 3, 'r': 4, 0: 0, 1: 1, 2: 2, 3: 3, 4: 4}
